@@ -24,6 +24,8 @@ static OTLP_PROTO: std::sync::OnceLock<emit_otlp::Otlp> = std::sync::OnceLock::n
 static OTLP_JSON: std::sync::OnceLock<emit_otlp::Otlp> = std::sync::OnceLock::new();
 static TERM_PLAIN: std::sync::OnceLock<emit_term::Stdout> = std::sync::OnceLock::new();
 static TERM_COLOR: std::sync::OnceLock<emit_term::Stdout> = std::sync::OnceLock::new();
+static TERM_ERR_PLAIN: std::sync::OnceLock<emit_term::Stderr> = std::sync::OnceLock::new();
+static TERM_ERR_COLOR: std::sync::OnceLock<emit_term::Stderr> = std::sync::OnceLock::new();
 thread_local! {
     /// which sink is rendering on this thread: 0 none, 1 file, 2 otlp protobuf, 3 otlp json, 4/5 term
     static CUR: std::cell::Cell<u8> = const { std::cell::Cell::new(0) };
@@ -42,6 +44,8 @@ fn install_reent_hook() {
             3 => OTLP_JSON.get().unwrap().emit(&evt),
             4 => TERM_PLAIN.get().unwrap().emit(&evt),
             5 => TERM_COLOR.get().unwrap().emit(&evt),
+            6 => TERM_ERR_PLAIN.get().unwrap().emit(&evt),
+            7 => TERM_ERR_COLOR.get().unwrap().emit(&evt),
             _ => {}
         }
     }));
@@ -131,11 +135,26 @@ fn load_cases(path: &str, long: usize) -> Vec<Case> {
 
 type TlCtxt = emit::platform::thread_local_ctxt::ThreadLocalCtxt;
 
+/// The hole's formatter of the "fmt_hole" template form (what `{a:>12}` expands to).
+fn hole_fmt(v: emit::Value, f: &mut std::fmt::Formatter) -> std::fmt::Result {
+    write!(f, "[{:>12}]", v)
+}
+
+/// The template of a case: a plain hole, a hole with a formatter, or no hole at all.
+fn tpl_parts(c: &Case) -> Vec<emit::template::Part<'_>> {
+    use emit::template::{Formatter, Part};
+    match c.spec["ev"]["tpl"].as_str().unwrap_or("hole") {
+        "literal" => vec![Part::text_ref(&c.lit), Part::text_ref("no hole end")],
+        "fmt_hole" => vec![Part::text_ref(&c.lit), Part::hole_ref("a").with_formatter(Formatter::new(hole_fmt)), Part::text_ref(" end")],
+        _ => vec![Part::text_ref(&c.lit), Part::hole_ref("a"), Part::text_ref(" end")],
+    }
+}
+
 /// Build the real event of a case as one slice of pairs (the logical property sequence) and
 /// hand it to `f`: used for the reference rendering of message and template.
 fn with_event<R>(c: &Case, f: impl FnOnce(&emit::Event<&[(emit::Str, emit::Value)]>) -> R) -> R {
     let props: Vec<(emit::Str, emit::Value)> = c.keys.iter().zip(&c.cvs).map(|(k, v)| (emit::Str::new_ref(k), v.to_value(c.fw))).collect();
-    let parts = [emit::template::Part::text_ref(&c.lit), emit::template::Part::hole_ref("a"), emit::template::Part::text_ref(" end")];
+    let parts = tpl_parts(c);
     let tpl = emit::Template::new_ref(&parts);
     let evt = emit::Event::new(emit::Path::new_owned_raw(c.mdl.clone()), tpl, c.extent.clone(), &props[..]);
     f(&evt)
@@ -145,7 +164,7 @@ fn with_event<R>(c: &Case, f: impl FnOnce(&emit::Event<&[(emit::Str, emit::Value
 fn emit_case<E: emit::Emitter>(c: &Case, cur: u8, em: &E) -> Result<(), String> {
     use std::collections::BTreeMap;
     let pairs: Vec<(emit::Str, emit::Value)> = c.keys.iter().zip(&c.cvs).map(|(k, v)| (emit::Str::new_ref(k), v.to_value(c.fw))).collect();
-    let parts = [emit::template::Part::text_ref(&c.lit), emit::template::Part::hole_ref("a"), emit::template::Part::text_ref(" end")];
+    let parts = tpl_parts(c);
     let tpl = emit::Template::new_ref(&parts);
     let path = emit::Path::new_owned_raw(c.mdl.clone());
     // a side of a concatenation: a map (is_unique() = true), as macro props, context frames,
@@ -348,7 +367,8 @@ fn check_otlp(t: &Tables, c: &Case, enc: &str, msg: &str, rec: &NRecord, out: &m
                 out.push(mis("metric data kind differs", format!("metric-data ev={ks}"), json!({"enc": enc, "want": exp["data"], "got": r.data})));
             }
             // points
-            let vcv = c.cvs[exp["value"].as_u64().unwrap() as usize - 1].strip_some();
+            let vcvn = c.cvs[exp["value"].as_u64().unwrap() as usize - 1].norm();
+            let vcv = &*vcvn;
             let elems: Vec<&CV> = match vcv {
                 CV::Seq(v) => v.iter().collect(),
                 o => vec![o],
@@ -358,6 +378,10 @@ fn check_otlp(t: &Tables, c: &Case, enc: &str, msg: &str, rec: &NRecord, out: &m
                     (CV::I64(i), NNum::Int(g)) => i == g,
                     (CV::F64(f), NNum::Double(g)) => f.to_bits() == *g || (f.is_nan() && f64::from_bits(*g).is_nan()),
                     (CV::F64(f), NNum::DoubleAny) => enc == "json" && !f.is_finite(),
+                    // an integer beyond i64: the nearest double (a data point cannot be text)
+                    (CV::U64(i), NNum::Double(g)) => (*i as f64).to_bits() == *g,
+                    (CV::I128(i), NNum::Double(g)) => (*i as f64).to_bits() == *g,
+                    (CV::U128(i), NNum::Double(g)) => (*i as f64).to_bits() == *g,
                     _ => false,
                 }
             };
@@ -542,14 +566,17 @@ fn check_term(c: &Case, body: &str) -> Option<(String, String)> {
     // the hole's value inside the message, for values with one obvious rendering
     let tail = &text[msg_at + c.lit.len()..];
     if idx("hole") != 0 {
-        let want = match c.cvs[idx("hole") - 1].strip_some() {
+        let holen = c.cvs[idx("hole") - 1].norm();
+        let want = match &*holen {
             CV::Bool(b) => Some(b.to_string()),
             v @ (CV::I64(_) | CV::U64(_) | CV::I128(_) | CV::U128(_)) => v.decimal(),
             CV::Str(s) if !s.is_empty() && s.chars().all(|c| c.is_ascii_alphanumeric() || c == ' ') => Some(s.clone()),
-            CV::Reent(r) => Some(r.text()),
+            // (how a value captured through sval formats under a hole's formatter is not decided)
+            CV::Reent(r) if t["fmt"].as_bool() != Some(true) => Some(r.text()),
             _ => None,
         };
         if let Some(w) = want {
+            let w = if t["fmt"].as_bool() == Some(true) { format!("[{:>12}]", w) } else { w };
             if !tail.contains(&w) {
                 return Some(("hole a".into(), w));
             }
@@ -577,14 +604,28 @@ fn term_child(cases: &str) {
     install_reent_hook();
     let plain = TERM_PLAIN.get_or_init(|| emit_term::stdout().colored(false));
     let colored = TERM_COLOR.get_or_init(|| emit_term::stdout().colored(true));
+    let err_plain = TERM_ERR_PLAIN.get_or_init(|| emit_term::stderr().colored(false));
+    let err_colored = TERM_ERR_COLOR.get_or_init(|| emit_term::Stderr::new().colored(true));
+    // the four forms of the sink: stdout / stderr, colored or not (markers go to the same stream)
     for c in &cs {
-        println!("@@BEGIN {}", c.salt);
-        let r = if c.salt % 2 == 0 { emit_case(c, 4, plain) } else { emit_case(c, 5, colored) };
-        match r {
-            Ok(()) => println!("\n@@END {} ok", c.salt),
-            Err(p) => println!("\n@@END {} panic {}", c.salt, p.replace('\n', " ")),
-        }
+        let form = c.salt % 4;
+        if form < 2 { println!("@@BEGIN {}", c.salt) } else { eprintln!("@@BEGIN {}", c.salt) }
+        let r = match form {
+            0 => emit_case(c, 4, plain),
+            1 => emit_case(c, 5, colored),
+            2 => emit_case(c, 6, err_plain),
+            _ => emit_case(c, 7, err_colored),
+        };
+        let line = match r {
+            Ok(()) => format!("\n@@END {} ok", c.salt),
+            Err(p) => format!("\n@@END {} panic {}", c.salt, p.replace('\n', " ")),
+        };
+        if form < 2 { println!("{line}") } else { eprintln!("{line}") }
     }
+    // flushing a terminal writer always succeeds
+    let t = Duration::from_secs(1);
+    let ok = catch(|| plain.blocking_flush(t) && colored.blocking_flush(t) && err_plain.blocking_flush(t) && err_colored.blocking_flush(t));
+    println!("@@FLUSH {ok:?}");
 }
 
 fn main() {
@@ -608,7 +649,7 @@ fn main() {
     let child = std::process::Command::new(std::env::current_exe().unwrap())
         .args(["term-child", cases_path, tables_path])
         .stdout(std::process::Stdio::piped())
-        .stderr(std::process::Stdio::null())
+        .stderr(std::process::Stdio::piped())
         .spawn()
         .unwrap_or_else(|e| tool_error(&format!("spawn term child: {e}")));
 
@@ -732,11 +773,15 @@ fn main() {
     // terminal output
     let term_out = child.wait_with_output().unwrap_or_else(|e| tool_error(&format!("term child: {e}")));
     if timing { eprintln!("term child done {:?}", t0.elapsed()); }
-    let term_text = String::from_utf8_lossy(&term_out.stdout).to_string();
     let mut term: HashMap<u64, (String, String)> = HashMap::new();
-    {
+    let mut flush_line = String::new();
+    for term_text in [String::from_utf8_lossy(&term_out.stdout).to_string(), String::from_utf8_lossy(&term_out.stderr).to_string()] {
         let mut cur: Option<(u64, String)> = None;
         for l in term_text.split('\n') {
+            if let Some(r) = l.strip_prefix("@@FLUSH ") {
+                flush_line = r.to_string();
+                continue;
+            }
             if let Some(r) = l.strip_prefix("@@BEGIN ") {
                 cur = Some((r.trim().parse().unwrap_or(0), String::new()));
             } else if let Some(r) = l.strip_prefix("@@END ") {
@@ -749,6 +794,9 @@ fn main() {
                 b.push('\n');
             }
         }
+    }
+    if term.len() == cases.len() && flush_line != "Ok(true)" {
+        rep.mismatch("terminal writer: blocking_flush did not return true", &json!({}), json!({"got": flush_line, "sig": "term-flush"}));
     }
     if !term_out.status.success() && term.len() < cases.len() {
         // the child died: a panic that escaped catch_unwind (abort) is an outcome of the code
@@ -789,7 +837,7 @@ fn main() {
         for (i, v) in c.cvs.iter().enumerate() {
             if !c.keys[..i].contains(&c.keys[i]) {
                 v.reent_ids(&mut rids);
-                if c.keys[i] == "a" {
+                if c.keys[i] == "a" && c.spec["ev"]["tpl"].as_str() != Some("literal") {
                     v.reent_ids(&mut term_rids);
                 }
             }
@@ -807,7 +855,7 @@ fn main() {
             }
         }
         // (b) OTLP, both encodings, and the twins
-        let empty_metric_seq = c.spec["otlp"]["sink"] == "metrics" && matches!(c.cvs[c.spec["otlp"]["value"].as_u64().unwrap() as usize - 1].strip_some(), CV::Seq(v) if v.is_empty());
+        let empty_metric_seq = c.spec["otlp"]["sink"] == "metrics" && matches!(&*c.cvs[c.spec["otlp"]["value"].as_u64().unwrap() as usize - 1].norm(), CV::Seq(v) if v.is_empty());
         let mut pair: Vec<Option<&NRecord>> = vec![];
         for (enc, recs, pk) in [("proto", &proto_recs, "otlp-proto"), ("json", &json_recs, "otlp-json")] {
             if panicked(pk) {
